@@ -134,6 +134,8 @@ func checkC10(tier, replay string) int {
 					scripts = append(scripts, tsyncScript{Phases: v, Flags: fl, LoaderMain: lm, NNP: len(v)%2 == 0})
 					if len(v) <= 2 {
 						scripts = append(scripts, tsyncScript{Phases: v, Flags: fl, LoaderMain: lm, NNP: len(v)%2 == 0, Uname26: true})
+						// a policy that uses the LOG action: the flag word is still the caller's
+						scripts = append(scripts, tsyncScript{Phases: v, Flags: fl, LoaderMain: lm, NNP: true, LogPolicy: true})
 						// as uid 65534, with and without no_new_privs
 						scripts = append(scripts, tsyncScript{Phases: v, Flags: fl, LoaderMain: lm, NNP: true, Unpriv: true}, tsyncScript{Phases: v, Flags: fl, LoaderMain: lm, NNP: false, Unpriv: true})
 						// every auxiliary seccomp(2) operation (support probes) is refused by an outer filter, loads are not
@@ -292,7 +294,7 @@ func checkC10(tier, replay string) int {
 	ctx.Cov["short_lived_threads_spawned_while_loading"] = spawnedDuring
 	ctx.Cov["single_bit_flag_words_checked"] = bits
 	ctx.Cov["thread_sync_refusals_reported_as_error"] = refused
-	ctx.Cov["rule"] = "states = (vector of user-visible phases of N other OS threads at the moment of the load: spinning, in nanosleep, blocked in read, blocked in futex, spawning short-lived threads) x flags {0,tsync,log,tsync|log} x loader on main / non-main thread; every vector for N<=2 (quick) / N<=3 (thorough) and homogeneous + mixed vectors for N=8 (and 64 thorough); plus histories and environments for the small vectors (a preloaded filter, an earlier thread-sync load of another policy, a divergent thread, an outer filter answering ENOSYS to seccomp(2), an outer filter answering EPERM to every auxiliary seccomp(2) operation (support probes) but not to loads, the process running as uid 65534 with and without no_new_privs (without, a refusal is expected and nil is only acceptable with every thread covered), the whole process under the UNAME26 personality so that uname(2) reports release 2.6.x); each is run once on the real kernel through the real LoadFilter; after an atomic 'load returned' flag every thread (including three born afterwards) probes getppid and reads its own /proc status, and /proc/self/task is scanned; plus all 32 single-bit flag words observed at the syscall seam and, for the defined bits, in strace's decoding of seccomp(2)"
+	ctx.Cov["rule"] = "states = (vector of user-visible phases of N other OS threads at the moment of the load: spinning, in nanosleep, blocked in read, blocked in futex, spawning short-lived threads) x flags {0,tsync,log,tsync|log} x loader on main / non-main thread; every vector for N<=2 (quick) / N<=3 (thorough) and homogeneous + mixed vectors for N=8 (and 64 thorough); plus histories and environments for the small vectors (a preloaded filter, an earlier thread-sync load of another policy, a divergent thread, an outer filter answering ENOSYS to seccomp(2), an outer filter answering EPERM to every auxiliary seccomp(2) operation (support probes) but not to loads, a policy with LOG actions, the process running as uid 65534 with and without no_new_privs (without, a refusal is expected and nil is only acceptable with every thread covered), the whole process under the UNAME26 personality so that uname(2) reports release 2.6.x); each is run once on the real kernel through the real LoadFilter; after an atomic 'load returned' flag every thread (including three born afterwards) probes getppid and reads its own /proc status, and /proc/self/task is scanned; plus all 32 single-bit flag words observed at the syscall seam and, for the defined bits, in strace's decoding of seccomp(2)"
 	ctx.Assumptions = []string{"the interleaving of seccomp(2) with other threads inside the kernel cannot be scheduled from user space; one run per phase vector", "phase of blocked threads is confirmed through /proc/<tid>/syscall immediately before the load is released"}
 	if replay != "" {
 		return finishReplay(ctx)
